@@ -1,6 +1,6 @@
 (* C16 -- the statements exported to Properties_C16.v, in self-contained form. *)
 From Coq Require Import List NArith Bool Arith Lia.
-From Gatery Require Import StreamDefs StreamSpec StreamCompose StreamStages StreamHold StreamPacket StreamChain StreamLive StreamRefute.
+From Gatery Require Import StreamDefs StreamSpec StreamCompose StreamStages StreamHold StreamPacket StreamMeta StreamChain StreamLive StreamRefute.
 Import ListNotations.
 
 (* ------------------------------------------------------------------ per stage *)
@@ -187,3 +187,24 @@ Proof.
   - assert (Nat.ltb m t = false) by (apply Nat.ltb_ge; lia). apply Nat.ltb_lt in H. now rewrite H0, H.
   - subst. now rewrite Nat.ltb_irrefl.
 Qed.
+
+(* ------------------------------------------------------------------ per-digit meta signals (ByteEnable) *)
+Lemma byteEnable_encoding_l : forall b e, (b < 256)%N -> sym_byte (sym b e) = b /\ sym_en (sym b e) = e.
+Proof. intros b e H; split; [apply sym_byte_sym | apply sym_en_sym]; exact H. Qed.
+
+Lemma reduceWidth_digit_view_l : forall f r cs, 1 <= r -> holdW (inW (trace (reduceS r) cs)) ->
+  exists pend, map (xmap f) (Tout (trace (reduceS r) cs)) = unpack r (map (xmap f) (Tin (trace (reduceS r) cs))) ++ pend /\ length pend < r.
+Proof. intros f r cs H HE; apply reduce_view; assumption. Qed.
+
+Lemma widthReduce_digit_view_l : forall f r cs, 1 <= r -> holdW (inW (trace (preduceS r) cs)) ->
+  exists pend, map (xmap f) (Tout (trace (preduceS r) cs)) = unpack r (map (xmap f) (Tin (trace (preduceS r) cs))) ++ pend /\ length pend < r.
+Proof. intros f r cs H HE; apply preduce_view; assumption. Qed.
+
+Lemma extendWidth_digit_view_l : forall f r cs, 1 <= r ->
+  map (xmap f) (Tout (trace (extendS r) cs)) = pack r (map (xmap f) (Tin (trace (extendS r) cs))).
+Proof. intros; apply extend_view; assumption. Qed.
+
+Lemma unpack_digit_view_l : forall f r l, unpack r (map (xmap f) l) = map (xmap f) (unpack r l).
+Proof. exact unpack_map. Qed.
+Lemma pack_digit_view_l : forall f r l, pack r (map (xmap f) l) = map (xmap f) (pack r l).
+Proof. exact pack_map. Qed.
